@@ -102,7 +102,8 @@ fn site_of_panic(msg: &str) -> &'static str {
     } else if has("donedata-Option not initialized") {
         "contentNoDonedata"
     } else if has("XML invalid") {
-        "rawEndTagNotFound"
+        // read_content: no end tag with the qualified name of the start tag (ill-formed XML)
+        "unsupportedSax"
     } else if has("Option::unwrap()") {
         "unwrap"
     } else {
@@ -376,7 +377,9 @@ fn check_doc(ctx: &mut Ctx, t: &Doc, origin: &Value, seed: u64) {
         if ok {
             return true;
         }
-        // adjustments for the known defects, each tried alone and together
+        // adjustments for the former / known defects, each tried alone and together (only
+        // `log-without-expr` is still a known finding; `raw-child-text`, `ns-prefix:raw-text-element`
+        // and `empty-pair-form` were repaired in round 2: these signatures are VIOLATIONs now)
         let mut tl = t.clone();
         let nl = drop_empty_logs(&mut tl);
         let mut trl = t_raw.clone();
